@@ -37,8 +37,9 @@ type Op struct {
 	D    int    `json:"d,omitempty"`
 	E    int    `json:"e,omitempty"`
 	Keys []int  `json:"keys,omitempty"`
-	F    int    `json:"f,omitempty"` // flags
-	N    int    `json:"n,omitempty"` // concurrent mode: kernel steps to run after starting the operation
+	F    int    `json:"f,omitempty"`  // flags
+	N    int    `json:"n,omitempty"`  // concurrent mode: kernel steps to run after starting the operation
+	ID   int    `json:"id,omitempty"` // stable identity (survives shrinking): task keys in tapes derive from it
 }
 
 const (
@@ -441,6 +442,7 @@ func Generate(r *rand.Rand, profile string, concurrent bool, av Avoid) *Plan {
 				o.N = 0
 			}
 		}
+		o.ID = i + 1
 		p.Ops = append(p.Ops, o)
 	}
 	return p
